@@ -816,6 +816,14 @@ class ConfigurableReference:
   def __ne__(self, other):
     return not self.__eq__(other)
 
+  def __lt__(self, other):
+    # An order, so that `pprint` can sort dict keys that are references: the
+    # config string must not depend on the order in which a dict was written.
+    if isinstance(other, self.__class__):
+      return ((self.config_key, self._evaluate) <
+              (other.config_key, other._evaluate))  # pylint: disable=protected-access
+    return NotImplemented
+
   def __hash__(self):
     # Not `repr(self)`: that depends on the context it is rendered in.
     return hash(
